@@ -5,7 +5,7 @@
    a kernel e = [ke] with e(a+b) = e a * e b (over C: e t = exp(-2 pi i t)); the least-squares statements are
    over the reals ([RS]).  [qsum] is the sum of a list of rationals. *)
 From Coq Require Import Permutation Reals.
-From LV Require Import Lib.Cis Model.Tilt Proofs.TiltP Proofs.TiltLsqP.
+From LV Require Import Lib.Cis Model.Tilt Proofs.TiltP Proofs.TiltLsqP Proofs.TiltEntryP.
 Local Open Scope Qc_scope.
 
 (* (a) Field.shift of angular tilts Tilt(x=a_k, y=b_k): (row, column) displacement in oversampled output
@@ -244,3 +244,124 @@ Example C04_nonvacuous :
      forall k, (0 <= k < 3)%Z -> d k = 0%R)
   /\ (Q2Qc (5 # 4)) * (Q2Qc (5 # 4)) = 1 + (Q2Qc (3 # 4)) * (Q2Qc (3 # 4)).
 Proof. exact nonvacuous_example. Qed.
+
+(* ==================================================================================================
+   Entry points, refusal paths and early returns (which calls are refused, with which exception, and what
+   stays untouched)
+   ================================================================================================== *)
+
+(* Field.shift raises ValueError exactly for an unknown indexing or a missing pixel scale, and for nothing else *)
+Theorem C04_field_shift_refusals :
+  forall (tl : list tilt) (z wl : Qc) (ps : option (Qc * Qc)) (os : Qc) (ix : indexing),
+  (forall e, field_shift tl z wl ps os ix = Err e -> e = ValueError /\ (ix = BadIndexing \/ ps = None))
+  /\ ((ix = BadIndexing \/ ps = None) -> field_shift tl z wl ps os ix = Err ValueError)
+  /\ (ix <> BadIndexing -> forall pr pc, ps = Some (pr, pc) -> exists s, field_shift tl z wl ps os ix = Ok s).
+Proof. exact field_shift_refusals. Qed.
+Print Assumptions C04_field_shift_refusals.
+Example C04_field_shift_refusals_nonvacuous :
+  field_shift [mk_tilt (zq 1) (zq 2)] (zq 8) (zq 1) None (zq 2) IJ = Err ValueError
+  /\ field_shift [mk_tilt (zq 1) (zq 2)] (zq 8) (zq 1) (Some (zq 1, zq 2)) (zq 2) BadIndexing = Err ValueError
+  /\ field_shift [mk_tilt (zq 1) (zq 2)] (zq 8) (zq 1) (Some (zq 1, zq 2)) (zq 2) IJ = Ok (zq 16, zq (-16)).
+Proof. exact ex_field_shift_refused. Qed.
+
+(* Wavefront(tilt=...): no tilt bookkeeping for None, one Tilt(x=rx, y=ry) for a pair, ValueError for any other length *)
+Theorem C04_wavefront_tilt_entry :
+  forall t : option (list Qc),
+  match t with
+  | None => wavefront_tilt t = Ok []
+  | Some l => (length l = 2%nat -> exists rx ry, l = [rx; ry] /\ wavefront_tilt t = Ok [mk_tilt rx ry])
+              /\ (length l <> 2%nat -> wavefront_tilt t = Err ValueError)
+  end.
+Proof. exact wavefront_tilt_spec. Qed.
+Print Assumptions C04_wavefront_tilt_entry.
+Example C04_wavefront_tilt_entry_nonvacuous :
+  wavefront_tilt (Some [zq 1]) = Err ValueError /\ wavefront_tilt (Some [zq 1; zq 2]) = Ok [TiltAng (zq 2) (zq 1)].
+Proof. exact ex_wavefront_tilt. Qed.
+
+(* Plane.multiply's self.tilt[n::self.size] for ANY tilt list (also one that is not a whole number of fits):
+   entry k of what segment n receives is entry n + k*size of the plane's list; nothing else is received *)
+Theorem C04_segment_tilt_slice :
+  forall (A : Type) (size : nat), (1 <= size)%nat ->
+  forall (l : list A) (n k : nat), nth_error (stride n size l) k = nth_error l (n + k * size).
+Proof. exact @stride_spec. Qed.
+Print Assumptions C04_segment_tilt_slice.
+Example C04_segment_tilt_slice_nonvacuous :
+  stride 1 2 [10; 11; 12; 13; 14]%Z = [11; 13]%Z /\ stride 0 3 [10; 11; 12; 13; 14]%Z = [10; 13]%Z.
+Proof. exact ex_stride. Qed.
+
+(* propagate_fft (which cannot honour tilt bookkeeping) raises NotImplementedError exactly when some field carries a
+   non-empty tilt list, so tilt metadata is never silently dropped; for the chain wavefront-tilt, Tilt planes, one masked
+   plane with [size] segments, Tilt planes: refused iff some segment's list is non-empty - in particular whenever the
+   wavefront has a tilt or any Tilt/DispersiveTilt plane is present (even of zero angle), accepted for an untilted chain *)
+Theorem C04_propagate_fft_guard :
+  forall (w0 pre : list tilt) (size : nat) (pt post : list tilt),
+  (forall fields : list (list tilt),
+     (fft_guard fields = Err NotImplementedErr <-> exists tl, In tl fields /\ tl <> [])
+     /\ (fft_guard fields = Ok tt <-> forall tl, In tl fields -> tl = []))
+  /\ (fft_guard (chain_tilts w0 (map CTilt pre ++ CPlane size pt :: map CTilt post)) = Err NotImplementedErr
+      <-> exists n, (n < size)%nat /\ ((w0 ++ pre) ++ stride n size pt) ++ post <> [])
+  /\ ((0 < size)%nat -> w0 ++ pre ++ post <> [] ->
+      fft_guard (chain_tilts w0 (map CTilt pre ++ CPlane size pt :: map CTilt post)) = Err NotImplementedErr)
+  /\ fft_guard (chain_tilts [] (map CTilt [] ++ CPlane size [] :: map CTilt [])) = Ok tt.
+Proof.
+  exact (fun w0 pre size pt post =>
+    conj fft_guard_spec (conj (fft_guard_chain w0 pre size pt post)
+      (conj (fft_guard_any_tilt w0 pre size pt post) (fft_guard_untilted size)))).
+Qed.
+Print Assumptions C04_propagate_fft_guard.
+Example C04_propagate_fft_guard_nonvacuous :
+  fft_guard (chain_tilts [] (map CTilt [] ++ CPlane 2 [] :: map CTilt [mk_tilt (zq 0) (zq 0)])) = Err NotImplementedErr
+  /\ fft_guard (chain_tilts [] (map CTilt [] ++ CPlane 2 [] :: map CTilt [])) = Ok tt.
+Proof. exact ex_fft_guard. Qed.
+
+(* DispersiveTilt(trace, dispersion): AssertionError unless both polynomials have at least two coefficients; the
+   modelled (analytic) element exactly when both have order 1; every other order goes to the numeric branch *)
+Theorem C04_dispersive_constructor :
+  forall (trace disp : list Qc) (root : Qc),
+  (mk_disp trace disp root = DispRefused <-> (length trace < 2)%nat \/ (length disp < 2)%nat)
+  /\ (forall t, mk_disp trace disp root = DispFirst t <->
+        exists t0 t1 d0 d1, trace = [t0; t1] /\ disp = [d0; d1] /\ t = TiltDisp t0 t1 d0 d1 root)
+  /\ (mk_disp trace disp root = DispHigher <->
+        (2 <= length trace)%nat /\ (2 <= length disp)%nat /\ (2 < length trace \/ 2 < length disp)%nat).
+Proof. exact mk_disp_spec. Qed.
+Print Assumptions C04_dispersive_constructor.
+Example C04_dispersive_constructor_nonvacuous :
+  mk_disp [zq 1] [zq 1; zq 2] (zq 1) = DispRefused
+  /\ mk_disp [zq 0; zq 1] [zq 1; zq 2] (zq 1) = DispFirst (TiltDisp (zq 0) (zq 1) (zq 1) (zq 2) (zq 1))
+  /\ mk_disp [zq 1; zq 0; zq 1] [zq 1; zq 2] (zq 1) = DispHigher.
+Proof. exact ex_mk_disp. Qed.
+
+(* the entry of fit_tilt: Image planes and planes without a 2-d mask come back untouched whatever else they hold;
+   otherwise a missing pixelscale is refused with ValueError (before the OPD is looked at), an OPD of size 1 is handed
+   back as is, and in every other case the result is Plane.fit_tilt's - the receiver keeping its OPD and tilt list
+   unless inplace.  The executable fit itself fails only with ValueError (no pixelscale, or a rank-deficient basis) *)
+Theorem C04_fit_tilt_entry :
+  forall (k : pkind) (has_mask inplace : bool) (p : qplane),
+  (k = KImage \/ has_mask = false -> fit_tilt_call k has_mask inplace p = Ok (p, p))
+  /\ (k <> KImage -> has_mask = true ->
+      (qp_ps p = None -> fit_tilt_call k has_mask inplace p = Err ValueError)
+      /\ (qp_ps p <> None -> qp_opd p = None -> fit_tilt_call k has_mask inplace p = Ok (p, p))
+      /\ (forall q r, fit_tilt_call k has_mask inplace p = Ok (q, r) ->
+            fit_tilt p = Ok q /\ r = (if inplace then q else p))
+      /\ (forall e, fit_tilt_call k has_mask inplace p = Err e -> fit_tilt p = Err e))
+  /\ (forall e, fit_tilt p = Err e -> e = ValueError).
+Proof. exact (fun k hm ip p => let '(conj a b) := fit_tilt_call_spec k hm ip p in conj a (conj b (fit_tilt_errors p))). Qed.
+Print Assumptions C04_fit_tilt_entry.
+Example C04_fit_tilt_entry_nonvacuous :
+  fit_tilt_call KImage true false ex_plane = Ok (ex_plane, ex_plane)
+  /\ (exists p', fit_tilt_call KPupil true false ex_plane = Ok (p', ex_plane) /\ qp_tilt p' = [mk_tilt (zq 3) (zq 1)])
+  /\ fit_tilt_call KPupil true false (mkQPlane None (qp_masks ex_plane) (qp_opd ex_plane) []) = Err ValueError.
+Proof. exact ex_fit_tilt_call. Qed.
+
+(* the validated rational solver behind the executable fit refuses exactly the singular 3x3 systems; its own
+   validation never fails *)
+Theorem C04_solver_complete :
+  forall (G : Z -> Z -> Qc) (r : Z -> Qc),
+  let D := det3 (G 0 0)%Z (G 0 1)%Z (G 0 2)%Z (G 1 0)%Z (G 1 1)%Z (G 1 2)%Z (G 2 0)%Z (G 2 1)%Z (G 2 2)%Z in
+  (D = 0 -> solve3 G r = Err ValueError) /\ (D <> 0 -> exists t, solve3 G r = Ok t).
+Proof. exact solve3_complete. Qed.
+Print Assumptions C04_solver_complete.
+Example C04_solver_complete_nonvacuous :
+  solve3 (fun i j => if (i =? j)%Z then zq 2 else zq 0) (fun i => zq (2 * i)) = Ok (zq 0, zq 1, zq 2)
+  /\ solve3 (fun i j => zq 1) (fun i => zq 1) = Err ValueError.
+Proof. exact ex_solve3. Qed.
